@@ -802,8 +802,8 @@ Proof.
   destruct (bempty rc_in) eqn:Rc; cbn [negb] in Eq.
   - destruct (c_onetime (e_cfg E)).
     + destruct (beqb (u_totp_last u) (trim_space code_in)); [inversion Eq|].
-      apply bind_ok_inv in Eq as (? & ? & _ & Eq).
-      destruct (totp_ok E (u_totp u) code_in) eqn:Tk; cbn [negb] in Eq; inversion Eq; subst.
+      destruct (totp_ok E (u_totp u) code_in) eqn:Tk; cbn [negb] in Eq; [|inversion Eq].
+      apply bind_ok_inv in Eq as (? & ? & _ & Eq). inversion Eq; subst.
       repeat split; auto.
     + destruct (totp_ok E (u_totp u) code_in) eqn:Tk; cbn [negb] in Eq; inversion Eq; subst.
       repeat split; auto.
@@ -975,8 +975,8 @@ Proof.
   destruct (bempty rc_in) eqn:Rc; cbn [negb] in Eq.
   - destruct (c_onetime (e_cfg E)).
     + destruct (beqb (u_totp_last u) (trim_space code_in)); [inversion Eq|].
-      apply bind_ok_inv in Eq as (? & ? & _ & Eq).
-      destruct (totp_ok E (u_totp u) code_in) eqn:Tk; cbn [negb] in Eq; inversion Eq; subst.
+      destruct (totp_ok E (u_totp u) code_in) eqn:Tk; cbn [negb] in Eq; [|inversion Eq].
+      apply bind_ok_inv in Eq as (? & ? & _ & Eq). inversion Eq; subst.
       repeat split; auto. intros D; discriminate D.
     + destruct (totp_ok E (u_totp u) code_in) eqn:Tk; cbn [negb] in Eq; inversion Eq; subst.
       repeat split; auto. intros D; discriminate D.
